@@ -136,13 +136,114 @@ theorem isEmpty_false_of_any (data : List Val) (h : data.any (fun v => v != Val.
   simp only [RegDef.isEmpty, Bool.eq_false_iff, ne_eq, List.all_eq_true, beq_iff_eq]
   exact fun hall => hne (hall v hv)
 
-/-- **One typed register**: what it writes is one proper line, and reading that
-line through the dispatcher gives back the very element. -/
+/-- **One typed register, in general**: for any non-empty data whose values
+render (`rs`), whose data-only line `w` has no inner newline: `Register.write`
+emits one proper line `out ++ "\n"`, and the dispatcher reads that line as a
+register of the same type holding what the data-only line reads back to. -/
+theorem typed_line (regs : List RegDef) (j : Nat) (r : RegDef) (hj : regs[j]? = some r)
+    (hf : RegFacts regs j r) (hdel : r.delimiter = .none) (data : List Val) (rs : List (List Char))
+    (hlen' : r.fields.length = data.length)
+    (hr : All2 (fun (fv : Field × Val) r => rendersTo fv.1 fv.2 r) (r.fields.zip data) rs)
+    (hne : RegDef.isEmpty data = false) (w : List Char) (hwp : writePos r.fields data = .ok w)
+    (hone : ¬ '\n' ∈ w.dropLast) :
+    ∃ out, writeFields (r.idField :: r.fields) (.str r.ident :: data) [] = .ok out ∧
+      writeRElem regs .text (.typed j data) = .ok (some (.str (out ++ ['\n']))) ∧
+      ¬ '\n' ∈ out ∧ elemOfLine regs (out ++ ['\n']) = .ok (.typed j (readPos r.fields w)) := by
+  obtain ⟨hid, hstart, hdis, hnl, hearlier⟩ := hf
+  obtain ⟨out, hout, hwd, hrd, hslice, hspans, hread⟩ := r.regLine data rs hdel hlen' hr hid hstart hdis hne
+  -- renderings are newline-free because the data-only line is
+  have hwf : ∃ o', writeFields r.fields data [] = .ok o' ∧ w = o' ++ ['\n'] := by
+    simp only [writePos, Except.map] at hwp
+    cases hwf : writeFields r.fields data [] with
+    | error e => simp [hwf] at hwp
+    | ok o' => simp only [hwf] at hwp; injection hwp with hwp; exact ⟨o', rfl, hwp.symm⟩
+  obtain ⟨o', ho', hwo⟩ := hwf
+  have hrs_nl : ∀ r' ∈ rs, ¬ '\n' ∈ r' := by
+    intro r' hr' hm
+    have := rendering_chars r.fields data rs hlen' hr hdis o' ho' r' hr' '\n' hm
+    rw [hwo] at hone
+    simp at hone
+    exact hone this
+  have hR : All2 (fun (fv : Field × Val) r => rendersTo fv.1 fv.2 r)
+      ((r.idField :: r.fields).zip (Val.str r.ident :: data)) (ljust r.ident r.digits ' ' :: rs) := by
+    simp only [List.zip_cons_cons]
+    exact All2.cons (R := fun (fv : Field × Val) r => rendersTo fv.1 fv.2 r) (a := (r.idField, Val.str r.ident))
+      (r.idField_rendersTo hid) hr
+  have hD : Cfi.Disjoint (r.idField :: r.fields) := by
+    refine ⟨fun g hg => Or.inl ?_, hdis⟩
+    have := hstart g hg
+    simpa [RegDef.idField, Field.mk'] using this
+  have hout_nl : ¬ '\n' ∈ out := by
+    intro hm
+    rcases out_chars _ _ _ (by simp [hlen']) hR hD out hout '\n' hm with h1 | ⟨r', hr', hc⟩
+    · exact absurd h1 (by decide)
+    · rcases List.mem_cons.mp hr' with rfl | hr'
+      · simp only [ljust, List.mem_append, List.mem_replicate] at hc
+        rcases hc with hc | hc
+        · exact hnl hc
+        · exact absurd hc.2 (by decide)
+      · exact hrs_nl r' hr' hc
+  refine ⟨out, hout, ?_, hout_nl, ?_⟩
+  · simp [writeRElem, hj, hwd]
+  · -- dispatch: the first matching type is `j`
+    have hcls : classifyText regs (out ++ ['\n']) = some j := by
+      have hjl : j < regs.length := by
+        rcases Nat.lt_or_ge j regs.length with h1 | h1
+        · exact h1
+        · rw [List.getElem?_eq_none h1] at hj; exact absurd hj (by simp)
+      have hrj : regs[j] = r := by
+        rw [List.getElem?_eq_getElem hjl] at hj; exact Option.some.inj hj
+      unfold classifyText
+      rw [List.findIdx?_eq_some_iff_getElem]
+      refine ⟨hjl, ?_, ?_⟩
+      · rw [hrj]
+        simp only [RegDef.matchesText]
+        have hk : r.digits ≤ firstDataStart r := by
+          -- either no field (then equal) or every field starts after the window
+          unfold firstDataStart
+          have : ∀ (fs : List Field) (m : Nat), r.digits ≤ m → (∀ f ∈ fs, r.digits ≤ f.start) →
+              r.digits ≤ fs.foldl (fun m f => min m f.start) m := by
+            intro fs
+            induction fs with
+            | nil => intro m hm _; exact hm
+            | cons f fs ih =>
+              intro m hm hs
+              exact ih _ (Nat.le_min.mpr ⟨hm, hs f (by simp)⟩) (fun g hg => hs g (by simp [hg]))
+          apply this _ _ _ hstart
+          have : ∀ (fs : List Field) (m : Nat), m ≤ fs.foldl (fun m f => max m f.stop) m := by
+            intro fs
+            induction fs with
+            | nil => intro m; exact Nat.le_refl _
+            | cons f fs ih => intro m; exact Nat.le_trans (Nat.le_max_left _ _) (ih _)
+          exact this _ _
+        rw [r.window_eq data rs hlen' hr hid hstart hdis out hout hslice r.digits hk]
+        have : (identColumns r).take r.digits = ljust r.ident r.digits ' ' := by
+          apply List.ext_getElem?
+          intro i
+          rw [List.getElem?_take, identColumns, getElem?_ljust, getElem?_ljust]
+          by_cases h1 : i < r.digits
+          · have : i < max r.digits (firstDataStart r) := by omega
+            simp [h1, this]
+          · have : ¬ i < r.ident.length := by omega
+            simp [h1, this]
+        rw [this]
+        exact isInfix_ljust _ _
+      · intro i hi
+        have hil : i < regs.length := by omega
+        obtain ⟨h1, h2⟩ := hearlier i regs[i] hi (by simp [hil])
+        simp only [RegDef.matchesText, Bool.not_eq_true]
+        rw [r.window_eq data rs hlen' hr hid hstart hdis out hout hslice _ h1]
+        exact h2
+    simp only [elemOfLine, hcls, hj, hrd, Except.map]
+    rw [hread w hwp]
+
+/-- **One typed register** of the C05 domain: what it writes is one proper line, and
+reading that line through the dispatcher gives back the very element. -/
 theorem typed_elem (regs : List RegDef) (hamb : unambiguous regs = true) (j : Nat) (r : RegDef)
     (hj : regs[j]? = some r) (hdel : r.delimiter = .none) (data : List Val) (ht : typedOk r data = true) :
     ∃ out, writeRElem regs .text (.typed j data) = .ok (some (.str (out ++ ['\n']))) ∧
       ¬ '\n' ∈ out ∧ elemOfLine regs (out ++ ['\n']) = .ok (.typed j data) := by
-  obtain ⟨hid, hstart, hdis, hnl, hearlier⟩ := regFacts regs hamb j r hj
+  have hf := regFacts regs hamb j r hj
   simp only [typedOk, Bool.and_eq_true, beq_iff_eq, List.all_eq_true] at ht
   obtain ⟨⟨⟨hlen, hdom⟩, hany⟩, hw⟩ := ht
   have hlen' : r.fields.length = data.length := hlen.symm
@@ -153,97 +254,13 @@ theorem typed_elem (regs : List RegDef) (hamb : unambiguous regs = true) (j : Na
     exact this.1.1
   obtain ⟨rs, hr⟩ := all2_rendersTo_of_fits r.fields data hlen' hfits
   have hne := isEmpty_false_of_any data hany
-  obtain ⟨out, hout, hwd, hrd, hslice, hspans, hread⟩ := r.regLine data rs hdel hlen' hr hid hstart hdis hne
   cases hwp : writePos r.fields data with
   | error e => simp [hwp] at hw
   | ok w =>
     simp only [hwp, Bool.and_eq_true, beq_iff_eq, Bool.not_eq_true', ] at hw
     obtain ⟨hback, hone⟩ := hw
-    -- renderings are newline-free because the data-only line is
-    have hwf : ∃ o', writeFields r.fields data [] = .ok o' ∧ w = o' ++ ['\n'] := by
-      simp only [writePos, Except.map] at hwp
-      cases hwf : writeFields r.fields data [] with
-      | error e => simp [hwf] at hwp
-      | ok o' => simp only [hwf] at hwp; injection hwp with hwp; exact ⟨o', rfl, hwp.symm⟩
-    obtain ⟨o', ho', hwo⟩ := hwf
-    have hrs_nl : ∀ r' ∈ rs, ¬ '\n' ∈ r' := by
-      intro r' hr' hm
-      have := rendering_chars r.fields data rs hlen' hr hdis o' ho' r' hr' '\n' hm
-      rw [hwo] at hone
-      simp at hone
-      exact hone this
-    have hR : All2 (fun (fv : Field × Val) r => rendersTo fv.1 fv.2 r)
-        ((r.idField :: r.fields).zip (Val.str r.ident :: data)) (ljust r.ident r.digits ' ' :: rs) := by
-      simp only [List.zip_cons_cons]
-      exact All2.cons (R := fun (fv : Field × Val) r => rendersTo fv.1 fv.2 r) (a := (r.idField, Val.str r.ident))
-        (r.idField_rendersTo hid) hr
-    have hD : Cfi.Disjoint (r.idField :: r.fields) := by
-      refine ⟨fun g hg => Or.inl ?_, hdis⟩
-      have := hstart g hg
-      simpa [RegDef.idField, Field.mk'] using this
-    have hout_nl : ¬ '\n' ∈ out := by
-      intro hm
-      rcases out_chars _ _ _ (by simp [hlen']) hR hD out hout '\n' hm with h1 | ⟨r', hr', hc⟩
-      · exact absurd h1 (by decide)
-      · rcases List.mem_cons.mp hr' with rfl | hr'
-        · simp only [ljust, List.mem_append, List.mem_replicate] at hc
-          rcases hc with hc | hc
-          · exact hnl hc
-          · exact absurd hc.2 (by decide)
-        · exact hrs_nl r' hr' hc
-    refine ⟨out, ?_, hout_nl, ?_⟩
-    · simp [writeRElem, hj, hwd]
-    · -- dispatch: the first matching type is `j`
-      have hcls : classifyText regs (out ++ ['\n']) = some j := by
-        have hjl : j < regs.length := by
-          rcases Nat.lt_or_ge j regs.length with h1 | h1
-          · exact h1
-          · rw [List.getElem?_eq_none h1] at hj; exact absurd hj (by simp)
-        have hrj : regs[j] = r := by
-          rw [List.getElem?_eq_getElem hjl] at hj; exact Option.some.inj hj
-        unfold classifyText
-        rw [List.findIdx?_eq_some_iff_getElem]
-        refine ⟨hjl, ?_, ?_⟩
-        · rw [hrj]
-          simp only [RegDef.matchesText]
-          have hk : r.digits ≤ firstDataStart r := by
-            -- either no field (then equal) or every field starts after the window
-            unfold firstDataStart
-            have : ∀ (fs : List Field) (m : Nat), r.digits ≤ m → (∀ f ∈ fs, r.digits ≤ f.start) →
-                r.digits ≤ fs.foldl (fun m f => min m f.start) m := by
-              intro fs
-              induction fs with
-              | nil => intro m hm _; exact hm
-              | cons f fs ih =>
-                intro m hm hs
-                exact ih _ (Nat.le_min.mpr ⟨hm, hs f (by simp)⟩) (fun g hg => hs g (by simp [hg]))
-            apply this _ _ _ hstart
-            have : ∀ (fs : List Field) (m : Nat), m ≤ fs.foldl (fun m f => max m f.stop) m := by
-              intro fs
-              induction fs with
-              | nil => intro m; exact Nat.le_refl _
-              | cons f fs ih => intro m; exact Nat.le_trans (Nat.le_max_left _ _) (ih _)
-            exact this _ _
-          rw [r.window_eq data rs hlen' hr hid hstart hdis out hout hslice r.digits hk]
-          have : (identColumns r).take r.digits = ljust r.ident r.digits ' ' := by
-            apply List.ext_getElem?
-            intro i
-            rw [List.getElem?_take, identColumns, getElem?_ljust, getElem?_ljust]
-            by_cases h1 : i < r.digits
-            · have : i < max r.digits (firstDataStart r) := by omega
-              simp [h1, this]
-            · have : ¬ i < r.ident.length := by omega
-              simp [h1, this]
-          rw [this]
-          exact isInfix_ljust _ _
-        · intro i hi
-          have hil : i < regs.length := by omega
-          obtain ⟨h1, h2⟩ := hearlier i regs[i] hi (by simp [hil])
-          simp only [RegDef.matchesText, Bool.not_eq_true]
-          rw [r.window_eq data rs hlen' hr hid hstart hdis out hout hslice _ h1]
-          exact h2
-      simp only [elemOfLine, hcls, hj, hrd, Except.map]
-      rw [hread w hwp, hback]
+    obtain ⟨out, _, h1, h2, h3⟩ := typed_line regs j r hj hf hdel data rs hlen' hr hne w hwp (by simpa using hone)
+    exact ⟨out, h1, h2, by rw [h3, hback]⟩
 
 end Props.C05
 
